@@ -209,7 +209,7 @@ pub fn eval_doc(doc: &Doc) -> Vec<Failure> {
         };
         fails.push(Failure {
             key: format!("semtok:{}", kind),
-            case: doc.case(Value::Null),
+            case: doc.case(json!({"expected_tokens": want.iter().map(|t| json!([t.line, t.start, t.len, t.ty, t.declaration])).collect::<Vec<_>>()})),
             detail: format!("token #{}: got {:?}, expected {:?}", i, a, b),
         });
     }
@@ -276,6 +276,16 @@ pub fn replay(case: &Value) -> Vec<Failure> {
     let t = case["text"].as_str().unwrap_or("");
     match request_tokens(t) {
         Err(e) => vec![Failure { key: "semtok:error".into(), case: case.clone(), detail: e }],
-        Ok(g) => well_formed(t, &g).err().map(|(k, d)| vec![Failure { key: format!("semtok:ill-formed:{}", k), case: case.clone(), detail: d }]).unwrap_or_default(),
+        Ok(g) => {
+            let mut out: Vec<Failure> = well_formed(t, &g).err().map(|(k, d)| vec![Failure { key: format!("semtok:ill-formed:{}", k), case: case.clone(), detail: d }]).unwrap_or_default();
+            if let Some(exp) = case["request"]["expected_tokens"].as_array() {
+                let got: Vec<Value> = g.iter().map(|t| json!([t.line, t.start, if t.ty == "comment" { 0 } else { t.len }, t.ty, t.declaration])).collect();
+                let want: Vec<Value> = exp.iter().map(|e| { let mut e = e.clone(); if e[3] == json!("comment") { e[2] = json!(0); } e }).collect();
+                if got != want {
+                    out.push(Failure { key: "semtok:classification".into(), case: case.clone(), detail: format!("got {:?}\nexpected {:?}", got, want) });
+                }
+            }
+            out
+        }
     }
 }
